@@ -285,10 +285,13 @@ for tier in ('quick', 'thorough'):
     for numb in ('consec', 'gaps', 'reversed', 'gaprev'):
         for n in (1, 2, 3, 4, 5):
             labs = S.numbering(numb, n)
-            for name, alpha in (('sched', c06.sched_subsets(labs, tier)), ('refine', c06.subsets(labs, tier)),
+            for name, alpha in (('sched', c06.sched_subsets(labs, tier, degenerate=False)), ('refine', c06.subsets(labs, tier)),
                                 ('repr', c06.repr_subsets(labs))):
                 lists = [x for x, _ in alpha if isinstance(x, list)]
                 check(all(len(set(x)) == len(x) and set(x) <= set(labs) for x in lists), f'{name} {numb} {n}: bad list')
+                # the EMPTY list: thorough refinement product only (quick has it in the degenerate sub-product)
+                check(([] in lists) == (name == 'refine' and tier == 'thorough'), f'{name} {numb} {n} {tier}: empty list placement')
+                lists = [x for x in lists if x]
                 if n >= 2:
                     check(any(x == sorted(x, reverse=True) for x in lists), f'{name} {numb} {n}: no descending list')
                 if n >= 3 and name != 'repr':
@@ -299,6 +302,49 @@ for tier in ('quick', 'thorough'):
             if n == 3:
                 full = [tuple(x) for x, _ in c06.subsets(labs, tier) if isinstance(x, list) and len(x) == 3]
                 check(sorted(full) == sorted(itertools.permutations(sorted(labs))), f'refine {numb}: not all 3! orders')
+# ---- degenerate elements of the labels= alphabet: empty in every container form, all labels as computed forms, repeated
+for numb in ('consec', 'gaps', 'reversed', 'gaprev'):
+    for n in (1, 2, 3, 4, 5):
+        labs = S.numbering(numb, n)
+        d = c06.degenerate_subsets(labs)
+        check([k for x, k in d['empty']] == [None, 'tuple', 'array', 'array32', 'selection'] and all(x == [] for x, _ in d['empty']),
+              f'degenerate {numb} {n}: empty forms')
+        check(all(x == sorted(labs) for x, _ in d['all']) and [k for _, k in d['all']] == ['selection', 'cached'],
+              f'degenerate {numb} {n}: all-labels forms')
+        check(all(c06._repeated(x) and set(x) <= set(labs) for x, _ in d['repeated'])
+              and sorted(x[0] for x, _ in d['repeated'] if len(x) == 2) == sorted(labs)
+              and (n < 2 or sum(1 for x, _ in d['repeated'] if len(x) == 3) == 2), f'degenerate {numb} {n}: repeated lists')
+        for tier in ('quick', 'thorough'):
+            sd = c06.sched_degenerate(labs, tier)
+            check(c06.sched_subsets(labs, tier)[-len(sd):] == sd, 'degenerate schedule elements are appended last')
+            check(sum(1 for x, _ in sd if x == []) == (2 if tier == 'quick' else 5), f'sched degenerate {numb} {n} {tier}: empty forms')
+            check(any(c06._repeated(x) and x == [labs[0], labs[0]] for x, _ in sd), f'sched degenerate {numb} {n} {tier}: [first, first]')
+            check(all(set(np.atleast_1d(x).tolist()) <= set(labs) for x, _ in sd), f'sched degenerate {numb} {n} {tier}: foreign label')
+        for frame, variant in ((('B2',) * n, 'pos'), (('B2',) * n, 'nonpos')):
+            cases = c06.degenerate_cases(frame, variant, labs)
+            check(len({(repr(a), b) for a, b in cases}) == len(cases), 'degenerate cases are distinct')
+            ne = sum(1 for (x, k), q in cases if x == [])
+            check(ne == 4 * 4 + 4 * 4, f'degenerate {numb} {n}: {ne} empty cases, expected [] x 4 contrasts x 4 + 4 forms x 4')
+            check(any(k == 'cached' for (x, k), q in cases) == (variant == 'pos'), 'all-labels forms are variant pos only')
+check(c06._empty([]) and not c06._empty(None) and not c06._empty([1]) and not c06._empty(0), '_empty')
+check(c06._repeated([2, 1, 2]) and not c06._repeated([1, 2]) and not c06._repeated(2) and not c06._repeated(None)
+      and not c06._repeated([]), '_repeated')
+seg_like = types.SimpleNamespace(labels=np.array([2, 5, 8]))
+for kind, want in (('tuple', ()), (None, [])):
+    check(c06.labels_arg([], kind) == want and type(c06.labels_arg([], kind)) is type(want), f'labels_arg empty {kind}')
+for kind, dt in (('array', np.int64), ('array32', np.int32), ('selection', np.int64)):
+    a = c06.labels_arg([], kind, seg_like)
+    check(isinstance(a, np.ndarray) and a.shape == (0,) and a.dtype == dt, f'labels_arg empty {kind}: {a!r}')
+a = c06.labels_arg([2, 8], 'selection', seg_like)
+check(a.tolist() == [2, 8] and not np.shares_memory(a, seg_like.labels), 'labels_arg selection')
+check(c06.labels_arg([2, 5, 8], 'cached', seg_like) is seg_like.labels, 'labels_arg cached')
+for bad, kind in (([8, 2], 'selection'), ([2, 5], 'cached'), ([2, 2], 'selection'), ([3], 'selection')):
+    try:
+        c06.labels_arg(bad, kind, seg_like)
+        check(False, f'labels_arg {kind} accepted {bad}')
+    except sch.ModelMismatch:
+        pass
+
 a = c06.labels_arg([3, 1, 2], 'array32')
 check(isinstance(a, np.ndarray) and a.dtype == np.int32 and a.tolist() == [3, 1, 2], 'labels_arg array32')
 check(c06.labels_arg([3, 1], 'tuple') == (3, 1) and c06.labels_arg([3, 1], None) == [3, 1], 'labels_arg tuple/list')
